@@ -134,8 +134,8 @@ def run_program(case, check, ctx=None):
             continue
         members.append(p)
         asts.append(leaf)
-        snaps.append(snapshot(p, texts))
-        fps.append(fingerprint(p, texts))
+        snaps.append(snapshot(p, dsl.bounded_texts(leaf, texts)))
+        fps.append(fingerprint(p, dsl.bounded_texts(leaf, texts)))
     if not members:
         return fps, False
     for step, op in enumerate(case['ops']):
@@ -181,11 +181,11 @@ def run_program(case, check, ctx=None):
             for x in (i, j):
                 uses[x] = uses.get(x, 0) + 1
                 used_after_touch = used_after_touch or x in touched
-            fresh_check(res, exc, ast, texts, check, case, step, desc, fps)
+            fresh_check(res, exc, ast, dsl.bounded_texts(ast, texts), check, case, step, desc, fps)
             if res is not None:
                 members.append(res)
                 asts.append(ast)
-                snaps.append(snapshot(res, texts))
+                snaps.append(snapshot(res, dsl.bounded_texts(ast, texts)))
         else:
             node = op_node(op, n)
             if node is None:
@@ -209,16 +209,16 @@ def run_program(case, check, ctx=None):
                 used_after_touch = used_after_touch or x in touched
             ast = subst(node, asts)
             desc = dsl.render(subst(node, [['lit', f'<m{k}>', False] for k in range(n)]))
-            fresh_check(res, exc, ast, texts, check, case, step, desc, fps)
+            fresh_check(res, exc, ast, dsl.bounded_texts(ast, texts), check, case, step, desc, fps)
             if res is not None:
                 members.append(res)
                 asts.append(ast)
-                snaps.append(snapshot(res, texts))
+                snaps.append(snapshot(res, dsl.bounded_texts(ast, texts)))
         what.append(desc)
         # invariant (1): nobody changed
         if check:
             for k, (p, s0) in enumerate(zip(members, snaps)):
-                s1 = snapshot(p, texts)
+                s1 = snapshot(p, dsl.bounded_texts(asts[k], texts))
                 if s1 != s0:
                     diff = [(a, b) for a, b in zip(s0, s1) if a != b][:1]
                     v = Violation('operand_mutated', case, f'after step {step} ({desc}) member m{k} = {dsl.render(asts[k])} changed: {diff}')
